@@ -27,7 +27,7 @@ const ID = "C17"
 // selects the decoration (its identity is carried by the unused-for-render
 // Horizontal field and, visibly, by its TopLeft glyph).
 type Op struct {
-	K    string `json:"k"` // register | named | list | render
+	K    string `json:"k"` // register | named | list | render | styles | hold | renderheld
 	Name int    `json:"name,omitempty"`
 	Val  int    `json:"val,omitempty"`
 }
@@ -137,9 +137,39 @@ func checkSeq(c Case) *ev.Violation {
 		mine[n] = true
 	}
 	model := map[string]int{}
+	type held struct {
+		tt      *texttable.TextTable
+		name    string
+		unknown bool // the name was not registered when the table was set to it: it reported the error then
+	}
+	var helds []held
 	for i, op := range c.Ops {
 		name := ns[((op.Name%poolSize)+poolSize)%poolSize]
 		switch op.K {
+		case "hold":
+			// a table is set to the name now and kept
+			tt := texttable.New()
+			tt.AddRowItems("x")
+			_, err := tt.SetDecorationNamed(name)
+			_, known := model[name]
+			if known != (err == nil) {
+				return ev.V("step %d: SetDecorationNamed(%q) error=%v although registered=%v", i+1, name, err, known)
+			}
+			helds = append(helds, held{tt, name, !known})
+		case "renderheld":
+			if len(helds) == 0 {
+				break
+			}
+			hd := helds[op.Val%len(helds)]
+			out, err := hd.tt.Render()
+			if hd.unknown {
+				// it reported the error when it was set; it keeps refusing, whatever has been registered since
+				if err == nil || out != "" {
+					return ev.V("step %d: a table set to %q while that name was unknown (it reported the error) later rendered: err=%v output=%q", i+1, hd.name, err, out)
+				}
+			} else if err != nil || out == "" {
+				return ev.V("step %d: a table set to the registered name %q fails to render: %v", i+1, hd.name, err)
+			}
 		case "register":
 			decoration.RegisterDecorationName(name, deco(op.Val))
 			model[name] = op.Val + 1
@@ -473,8 +503,49 @@ func checkUnknown(c Case) *ev.Violation {
 	return nil
 }
 
+// checkFresh must be the first thing that touches the registry in its process: an application overwrites a
+// built-in name before anything has looked one up; from then on that name means the application's decoration.
+func checkFresh(c Case) *ev.Violation {
+	if !atomic.CompareAndSwapInt64(&freshUsed, 0, 1) {
+		return nil // only meaningful once per process
+	}
+	name := gen.BuiltinDecos[c.G%len(gen.BuiltinDecos)]
+	d := deco(c.K)
+	decoration.RegisterDecorationName(name, d)
+	if got := decoration.Named(name); got != d {
+		return ev.V("a process whose first registry operation overwrites the built-in %q reads back Horizontal %q, not its own decoration", name, got.Horizontal)
+	}
+	l := decoration.RegisteredDecorationNames()
+	for i := 1; i < len(l); i++ {
+		if l[i-1] >= l[i] {
+			return ev.V("listing not sorted/duplicate-free: %v", l)
+		}
+	}
+	have := map[string]bool{}
+	for _, n := range l {
+		have[n] = true
+	}
+	for _, b := range gen.BuiltinDecos {
+		if !have[b] {
+			return ev.V("listing lacks built-in %q: %v", b, l)
+		}
+	}
+	if got := decoration.Named(name); got != d {
+		return ev.V("after a listing, %q no longer resolves to the application's decoration", name)
+	}
+	g, err := renderBy(name)
+	if err != nil || g != firstGlyph(d) {
+		return ev.V("a table set to %q renders with corner %q (err %v), the application's decoration has %q", name, g, err, firstGlyph(d))
+	}
+	return nil
+}
+
+var freshUsed int64
+
 func CheckCase(c Case) *ev.Violation {
 	switch c.Kind {
+	case "fresh":
+		return checkFresh(c)
 	case "seq":
 		return checkSeq(c)
 	case "conc":
